@@ -176,6 +176,14 @@ func ruleGuardTable(p *Prog, r *Report, rule, prop string) {
 		if k.site == "append" {
 			// how many appends build a list is a matter of spelling (`append(l, a, b)` for two appends);
 			// what counts is under which conditions the list grows
+			// ... nor whether a growing step stands behind a join (`## *`: entered whatever an
+			// earlier if/else decided) or in a helper of its own
+			for i := range got {
+				got[i] = strings.TrimSuffix(got[i], "*")
+			}
+			for i := range w {
+				w[i] = strings.TrimSuffix(w[i], "*")
+			}
 			got, w = dedupStrings(got), dedupStrings(w)
 			if len(got) == 0 {
 				// the list is built without append now (slices.Concat, a literal): nothing to compare here
